@@ -292,6 +292,10 @@ pub struct SenderSpec {
     pub queues: Vec<(u32, u32)>,
     pub interleave: u8,
     pub rfc3926: bool,
+    /// the application stamps its publications with a clock that is this much AHEAD of the one it polls with
+    /// (publish(now + ahead), read(now)): another clock source, a wall clock stepped back in between
+    #[serde(default)]
+    pub publish_ahead_us: u64,
     pub toi_len: ToiLen,
     /// `None` = random default (supplied by the simulator through the H2 hook as `toi_seed`)
     pub toi_initial: Option<String>,
@@ -314,6 +318,7 @@ impl SenderSpec {
             queues: vec![(0, 3)],
             interleave: 4,
             rfc3926: false,
+            publish_ahead_us: 0,
             toi_len: ToiLen::L112,
             toi_initial: Some("1".into()),
             toi_seed: None,
